@@ -318,7 +318,11 @@ func c03Scenarios() []*c03Scn {
 func c03Spec(t *testing.T, scn *c03Scn, depth int) *seqmc.Spec[*c03Inst, c03Op] {
 	return &seqmc.Spec[*c03Inst, c03Op]{
 		Name:     scn.name,
-		New:      func() *c03Inst { return c03New(scn) },
+		New: func() *c03Inst {
+			in := c03New(scn)
+			in.depth = depth
+			return in
+		},
 		Close:    func(in *c03Inst) { in.close() },
 		Ops:      func(in *c03Inst) []c03Op { return in.ops() },
 		Apply:    func(in *c03Inst, op c03Op) error { return in.apply(op) },
